@@ -59,6 +59,9 @@ var c19BigHash = func() string {
 }()
 
 var c19Corpus = []string{
+	// keys that read as numbers without behaving like them, and number-like strings between numbers
+	`h = {"nan": 1, "NaN": 2, 3: "three", 10: "ten", "inf": 4, "-0": 5, 0: 6, "1e400": 7, 2.5: 8, "-inf": 9}; hv(string(h)); hv(keys(h)); foreach k, v in h { hv(k); } return len(h);`,
+	`ports = {80: "http", 443: "https", "53/udp": "dns", 22: "ssh", "8080": "alt", "_x": 1, "9": 2}; hv(keys(ports)); foreach k, v in ports { hv(k); hv(v); } return string(ports);`,
 	// several spellings of one number, as strings and as numbers
 	`h = {"7": 1, "07": 2, "7.0": 3, 7: 4, "1e1": 5, "10": 6, " 7": 7, "+7": 8, 7.0: 9, "0x7": 10}; hv(string(h)); hv(keys(h)); foreach k, v in h { hv(k); } return len(h);`,
 	`h = {"b": 1, "B": 2, "a": 3, "A": 4, "ß": 5, "SS": 6, "é": 7, "e": 8, "É": 9}; hv(keys(h)); foreach k in keys(h) { hv(k); } return string(h);`,
